@@ -139,11 +139,21 @@ def gen_loss(draw, name):
         if args["reduction"] == "mean" and draw(st.booleans()):
             args["default_reduction"] = True
     if name in ("nll", "ce"):
-        n, c = draw(st.integers(1, 5)), draw(st.integers(1, 5))
+        n, c = draw(st.sampled_from([1, 2, 3, 4, 5, 5, 130, 300])), draw(st.integers(1, 5))
+        if n > 5:
+            c = min(c, 2)
         shp = [n, c]
-        args["labels"] = [draw(st.integers(0, c - 1)) for _ in range(n)]
-        args["label_dtype"] = draw(st.sampled_from(["int64", "int32", "int8"]))
-        return {"xs": [X(shp, draw(gen.grid(shp)))], "args": args}
+        lab_pat = [draw(st.integers(0, c - 1)) for _ in range(min(n, 7))]
+        args["labels"] = [lab_pat[(j * j + j) % len(lab_pat)] for j in range(n)]
+        args["label_dtype"] = draw(st.sampled_from(["int64", "int32", "int8", "uint8", "int16"]))
+        v = draw(gen.grid([min(n, 7), c]))
+        v = [v[((j % min(n, 7)) * c + q)] for j in range(n) for q in range(c)]
+        if name == "ce" and draw(st.integers(0, 3)) == 0:
+            # rows at very different levels (cross-entropy is shift-invariant per row)
+            lv = [draw(st.sampled_from([0.0, 200.0, -200.0, 1000.0])) for _ in range(min(n, 5))]
+            v = [x + lv[(j // c) % len(lv)] for j, x in enumerate(v)]
+            args["levels"] = True
+        return {"xs": [X(shp, v)], "args": args}
     shp = draw(gen.shapes(0, 3, 60))
     if name == "mse":
         return {"xs": [X(shp, draw(gen.grid(shp))), X(shp, draw(gen.grid(shp)))], "args": args}
